@@ -83,77 +83,38 @@ Proof. exact read_no_fuel. Qed.
 
 (* ------------------------------------------------------------------------------------------------
    C08_lost, the property as stated ("loss of the connection is reported as ConnectionLost and leaves the
-   client in the disconnected state"), for the call that reaches the point where the peer closed:
-
-       Theorem C08_lost : forall tbl cfg st b tm o st' s', connected st = true -> closed tm = true ->
-         cut_stream b -> read tbl cfg st (mkStream b tm) = (o, st', s') ->
-         o = ORaise EConnLost /\ connected st' = false.
-
-   It is FALSE of the current code, for three recorded reasons (known findings):
-     lost:rst-at-recv-boundary    a reset with no byte pending makes recv raise ConnectionResetError; the
-                                  `except ConnectionError: raise ConnectionLost` paths leave _connected True
-     lost:rst-in-drain-raw-error  the drain recv of the three decode-error branches is outside any try block:
-                                  the same reset escapes read_message as a raw ConnectionResetError
-     lost:cut-in-drain            a frame cut inside the payload of an undecodable frame is reported as the
-                                  decode error (short drain unchecked); the loss surfaces one call later
+   client in the disconnected state"), in full: the call that reaches the point where the peer closed (FIN) or
+   reset (RST) - at ANY byte offset of a frame, header or payload, decodable frame or not, after any number
+   of queued whole frames that this call filters out - raises ConnectionLost and leaves connected = False.
+   History: on the snapshot tree this was false in three classes (reset with no byte pending left connected
+   True; the same reset escaped the unguarded drain as a raw ConnectionResetError; a cut inside a drained
+   payload was reported as the decode error) - fixed in /repo by 5577bbe (`fixed:` lines lost:* in
+   known_findings.d/client.txt).  Gen/ReadGuards.v regenerates, on every run, whether each of those paths
+   clears _connected and whether Client._drain checks for a short read; removing any of them breaks
+   Proofs/ReadProofs.v raw_cut_header / raw_cut_payload.
    ------------------------------------------------------------------------------------------------ *)
 Definition tbl_ex : deftable := [(15, (4, 4122228680)); (2, (0, 3072701825))].
 Definition st_all : rstate := mkR true true [].
 Definition cfg_none : rcfg := mkCfg TNone false false.
 
-Theorem C08_lost_refuted_rst_boundary : exists tbl cfg st b tm o st' s',
-  connected st = true /\ closed tm = true /\ cut_stream b /\ read tbl cfg st (mkStream b tm) = (o, st', s') /\
-  o = ORaise EConnLost /\ connected st' = true.
-Proof.
-  exists tbl_ex, cfg_none, st_all, [], Rst. do 3 eexists. split; [reflexivity|]. split; [reflexivity|].
-  split; [left; vm_compute; lia|]. split; [vm_compute; reflexivity|]. split; reflexivity.
-Qed.
-
-Theorem C08_lost_refuted_raw_reset : exists tbl cfg st b tm st' s',
-  connected st = true /\ closed tm = true /\ cut_stream b /\
-  read tbl cfg st (mkStream b tm) = (ORaise EConnReset, st', s').
-Proof.
-  exists tbl_ex, cfg_none, st_all, (hdr_of 7777 6 0), Rst. do 2 eexists. split; [reflexivity|]. split; [reflexivity|].
-  split; [right; exists (hdr_of 7777 6 0), []; rewrite app_nil_r; repeat split; vm_compute; reflexivity|].
-  vm_compute. reflexivity.
-Qed.
-
-Theorem C08_lost_refuted_cut_in_drain : exists tbl cfg st b tm h raw st' s',
-  connected st = true /\ closed tm = true /\ cut_stream b /\
-  read tbl cfg st (mkStream b tm) = (OUnknown h raw, st', s') /\ connected st' = true.
-Proof.
-  exists tbl_ex, cfg_none, st_all, (hdr_of 7777 6 0 ++ [1; 2]), Fin. do 4 eexists. split; [reflexivity|].
-  split; [reflexivity|].
-  split; [right; exists (hdr_of 7777 6 0), [1; 2]; repeat split; vm_compute; reflexivity|].
-  split; vm_compute; reflexivity.
-Qed.
-
-(* Holds outside the three recorded classes (decidable side conditions):
-   - the peer closed inside or right before a HEADER: orderly close, or reset with at least one byte pending;
-   - the peer closed inside the PAYLOAD of a decodable frame: orderly close, or reset with at least one
-     payload byte pending.
-   `fs` are whole frames queued before the cut that this call filters out (spec_read = None). *)
-Theorem C08_lost_partial_header : forall tbl cfg st fs b tm,
-  connected st = true -> Forall wf_frame fs -> spec_read tbl cfg st fs = None ->
-  (length b < Z.to_nat HEADER_SIZE)%nat -> (tm = Fin \/ (tm = Rst /\ b <> [])) ->
+Theorem C08_lost : forall tbl cfg st fs b tm,
+  connected st = true -> closed tm = true -> Forall wf_frame fs -> spec_read tbl cfg st fs = None ->
+  cut_stream b ->
   exists s', read tbl cfg st (mkStream (encs fs ++ b) tm) = (ORaise EConnLost, disconnected st, s').
-Proof. exact lost_partial_header. Qed.
+Proof. exact lost_full. Qed.
 
-Theorem C08_lost_partial_payload : forall tbl cfg st fs h pp tm,
-  connected st = true -> Forall wf_frame fs -> spec_read tbl cfg st fs = None ->
-  length h = Z.to_nat HEADER_SIZE -> Z.of_nat (length pp) < hdr_nbytes h ->
-  decodable tbl (sync_check cfg) h = true -> (tm = Fin \/ (tm = Rst /\ pp <> [])) ->
-  exists s', read tbl cfg st (mkStream (encs fs ++ h ++ pp) tm) = (ORaise EConnLost, disconnected st, s').
-Proof. exact lost_partial_payload. Qed.
-
-(* and in EVERY case, recorded classes included: once the peer has closed or reset inside a frame, one of
-   the next three calls - whatever their options and subscription state - raises ConnectionLost leaving
-   connected = False, and the client is disconnected after the third at the latest *)
-Theorem C08_lost_eventually : forall tbl c1 c2 c3 b tm, closed tm = true -> cut_stream b ->
-  let os := fst (read_many tbl [c1; c2; c3] true (mkStream b tm)) in
-  (lost_at os 0 \/ lost_at os 1 \/ lost_at os 2) /\
-  match nth_error os 2 with Some (_, conn) => conn = false | None => False end.
-Proof. exact lost_eventually. Qed.
+(* the three formerly failing inputs: reset at a recv boundary, reset right after the header of an unknown
+   type, orderly close inside the payload of an unknown type *)
+Example C08_lost_nonvacuous :
+  cut_stream [] /\ cut_stream (hdr_of 7777 6 0) /\ cut_stream (hdr_of 7777 6 0 ++ [1; 2]) /\
+  read tbl_ex cfg_none st_all (mkStream [] Rst) = (ORaise EConnLost, disconnected st_all, mkStream [] Fin) /\
+  read tbl_ex cfg_none st_all (mkStream (hdr_of 7777 6 0) Rst) = (ORaise EConnLost, disconnected st_all, mkStream [] Fin) /\
+  read tbl_ex cfg_none st_all (mkStream (hdr_of 7777 6 0 ++ [1; 2]) Fin) = (ORaise EConnLost, disconnected st_all, mkStream [] Fin).
+Proof.
+  split; [left; vm_compute; lia|]. split; [right; exists (hdr_of 7777 6 0), []; rewrite app_nil_r; repeat split; vm_compute; reflexivity|].
+  split; [right; exists (hdr_of 7777 6 0), [1; 2]; repeat split; vm_compute; reflexivity|].
+  repeat split; vm_compute; reflexivity.
+Qed.
 
 (* once disconnected, every call raises NotConnectedError and reads nothing *)
 Theorem C08_disconnected_stays : forall tbl cfg st s, connected st = false ->
@@ -183,13 +144,9 @@ Example C08_sequence_nonvacuous :
      (OMsg (fh f_good) (fp f_good), true)].
 Proof. split; vm_compute; reflexivity. Qed.
 
-Example C08_lost_partial_nonvacuous :
+Example C08_lost_after_frame_nonvacuous :
   let b := firstn 50 (enc f_good) in
-  exists h pp, b = h ++ pp /\ length h = Z.to_nat HEADER_SIZE /\ Z.of_nat (length pp) < hdr_nbytes h /\
-    decodable tbl_ex false h = true /\ pp <> [] /\
-    read tbl_ex cfg_none st_all (mkStream (enc f_good ++ b) Rst) =
-      (OMsg (fh f_good) (fp f_good), st_all, mkStream b Rst) /\
-    read tbl_ex cfg_none st_all (mkStream b Rst) = (ORaise EConnLost, disconnected st_all, mkStream [] Rst).
-Proof.
-  exists (fh f_good), [1; 2]. repeat split; try (vm_compute; reflexivity). discriminate.
-Qed.
+  read tbl_ex cfg_none st_all (mkStream (enc f_good ++ b) Rst) =
+    (OMsg (fh f_good) (fp f_good), st_all, mkStream b Rst) /\
+  read tbl_ex cfg_none st_all (mkStream b Rst) = (ORaise EConnLost, disconnected st_all, mkStream [] Rst).
+Proof. split; vm_compute; reflexivity. Qed.
